@@ -129,11 +129,157 @@ Proof.
   - rewrite nth_overflow in H by lia. discriminate.
 Qed.
 
+(* ------------------------------------------------------------------ the flag discipline *)
+
+(* interpreter.readOnly is mutable state that StaticCall sets and resets (Interp.do_staticcall).  Every call
+   hands the flag back as it found it: the mutable flag behaves like a parameter passed down. *)
+Definition rec_keeps (rec : interp_t) : Prop := forall w fr, o_ro (rec w fr) = f_ro fr.
+
+Lemma run_precompile_ro : forall e w a i g rd tr ro, o_ro (run_precompile e w a i g rd tr ro) = ro.
+Proof.
+  intros. unfold run_precompile. destruct (a =? 5).
+  - destruct (modexp_gas i); try reflexivity. destruct (g <? _); try reflexivity. destruct (modexp_run i); reflexivity.
+  - destruct (e_precomp e a i) as [[og r]|]; try reflexivity.
+    destruct (g <? _); try reflexivity. destruct (a =? 4); try reflexivity. destruct r; reflexivity.
+Qed.
+Lemma run_contract_keeps : forall rec e w ca fr rd, rec_keeps rec -> o_ro (run_contract rec e w ca fr rd) = f_ro fr.
+Proof. intros. unfold run_contract. destruct (is_precompile e ca); [apply run_precompile_ro | apply H]. Qed.
+Lemma finish_call_ro : forall snap o, o_ro (finish_call snap o) = o_ro o.
+Proof. intros. unfold finish_call. destruct (o_res o); reflexivity. Qed.
+
+Lemma do_call_keeps : forall rec e w rd tr depth ro caller addr input gas value, rec_keeps rec ->
+  o_ro (do_call rec e w rd tr depth ro caller addr input gas value) = ro.
+Proof.
+  intros. unfold do_call. destruct (depth >? CallCreateDepth); [reflexivity|]. destruct (negb _); [reflexivity|].
+  destruct (_ && _); [reflexivity|]. rewrite finish_call_ro, run_contract_keeps by assumption. reflexivity.
+Qed.
+Lemma do_callcode_keeps : forall rec e w rd tr depth ro caller addr input gas value, rec_keeps rec ->
+  o_ro (do_callcode rec e w rd tr depth ro caller addr input gas value) = ro.
+Proof.
+  intros. unfold do_callcode. destruct (depth >? CallCreateDepth); [reflexivity|]. destruct (negb _); [reflexivity|].
+  rewrite finish_call_ro, run_contract_keeps by assumption. reflexivity.
+Qed.
+Lemma do_delegatecall_keeps : forall rec e w rd tr depth ro self pc pv addr input gas, rec_keeps rec ->
+  o_ro (do_delegatecall rec e w rd tr depth ro self pc pv addr input gas) = ro.
+Proof.
+  intros. unfold do_delegatecall. destruct (depth >? CallCreateDepth); [reflexivity|].
+  rewrite finish_call_ro, run_contract_keeps by assumption. reflexivity.
+Qed.
+(* the point: set on entry only when it was off, and switched off on return exactly then *)
+Lemma do_staticcall_keeps : forall rec e w rd tr depth ro caller addr input gas, rec_keeps rec ->
+  o_ro (do_staticcall rec e w rd tr depth ro caller addr input gas) = ro.
+Proof.
+  intros. unfold do_staticcall. destruct (depth >? CallCreateDepth); [reflexivity|].
+  destruct ro; [|reflexivity]. rewrite finish_call_ro, run_contract_keeps by assumption. reflexivity.
+Qed.
+Lemma do_create_keeps : forall rec e w rd tr depth ro caller code gas value, rec_keeps rec ->
+  o_ro (do_create rec e w rd tr depth ro caller code gas value) = ro.
+Proof.
+  intros rec e w rd tr depth ro caller code gas value Hk. unfold do_create.
+  destruct (depth >? CallCreateDepth); [reflexivity|]. destruct (negb _); [reflexivity|].
+  destruct (_ || _); [reflexivity|].
+  match goal with |- context[run_contract rec e ?w3 ?a ?fr rd] =>
+    pose proof (run_contract_keeps rec e w3 a fr rd Hk) as Hr; set (o := run_contract rec e w3 a fr rd) in * end.
+  cbn [new_frame f_ro] in Hr.
+  destruct (o_res o); try exact Hr;
+    repeat match goal with |- context[let '(_, _) := ?t in _] => destruct t as [[? ?] ?] end; exact Hr.
+Qed.
+
+Lemma call_return_ro : forall w fr rest ro rs o w2 fr2 res,
+  call_return w fr rest ro rs o = X_ok w2 fr2 res -> f_ro fr2 = o_ro o.
+Proof.
+  intros w fr rest ro rs o w2 fr2 res H. unfold call_return in H.
+  destruct (o_res o); try discriminate;
+    try (destruct (mem_set _ _ _ _); try discriminate); injection H as _ <- _; reflexivity.
+Qed.
+
+Ltac inv_keep H :=
+  repeat match type of H with
+  | match ?t with _ => _ end = _ => destruct t eqn:?; try discriminate
+  | (let '(_, _) := ?t in _) = _ => destruct t eqn:?
+  | (if ?t then _ else _) = _ => destruct t eqn:?; try discriminate
+  | lift_mem _ _ _ _ = _ => unfold lift_mem in H
+  end;
+  injection H as _ <- _; reflexivity.
+
+Lemma exec_keeps : forall rec e w fr1 x temp w2 fr2 res, rec_keeps rec ->
+  exec rec e w fr1 x temp = X_ok w2 fr2 res -> f_ro fr2 = f_ro fr1.
+Proof.
+  intros rec e w fr1 x temp w2 fr2 res Hk H.
+  destruct x; unfold exec in H; try solve [inv_keep H].
+  - (* create *)
+    destruct (f_stack fr1) as [|value [|offset [|size r]]]; try discriminate.
+    destruct (mem_get _ _ _); try discriminate.
+    match type of H with context[do_create ?a ?b ?c ?d ?e' ?f ?g ?h ?i ?j ?k] =>
+      pose proof (do_create_keeps a b c d e' f g h i j k Hk) as Hc; set (o := do_create a b c d e' f g h i j k) in * end.
+    destruct (o_res o); try discriminate; injection H as _ <- _; exact Hc.
+  - destruct (f_stack fr1) as [|g0 [|addr [|value0 [|inOff [|inSize [|retOff [|retSize r]]]]]]]; try discriminate.
+    destruct (mem_get _ _ _); try discriminate.
+    apply call_return_ro in H. rewrite H. apply do_call_keeps, Hk.
+  - destruct (f_stack fr1) as [|g0 [|addr [|value0 [|inOff [|inSize [|retOff [|retSize r]]]]]]]; try discriminate.
+    destruct (mem_get _ _ _); try discriminate.
+    apply call_return_ro in H. rewrite H. apply do_callcode_keeps, Hk.
+  - destruct (f_stack fr1) as [|g0 [|addr [|inOff [|inSize [|retOff [|retSize r]]]]]]; try discriminate.
+    destruct (mem_get _ _ _); try discriminate.
+    apply call_return_ro in H. rewrite H. apply do_delegatecall_keeps, Hk.
+  - destruct (f_stack fr1) as [|g0 [|addr [|inOff [|inSize [|retOff [|retSize r]]]]]]; try discriminate.
+    destruct (mem_get _ _ _); try discriminate.
+    apply call_return_ro in H. rewrite H. apply do_staticcall_keeps, Hk.
+  - discriminate H.
+Qed.
+
+Lemma step_keeps : forall rec e w fr, rec_keeps rec ->
+  match step rec e w fr with
+  | S_next _ fr' => f_ro fr' = f_ro fr
+  | S_done o => o_ro o = f_ro fr
+  end.
+Proof.
+  intros rec e w fr Hk. unfold step.
+  destruct (negb _); [reflexivity|].
+  destruct (validateStack _ _ _); [|reflexivity|reflexivity].
+  destruct (restricted _ _ _ _); [reflexivity|].
+  destruct (mem_size_big _ _) as [msb|]; [|reflexivity].
+  destruct (match msb with Some b => run_memorySize b | None => Ok 0 end); [|reflexivity|reflexivity].
+  destruct (gas_cost _ _ _ _ _) as [g|?|]; [|reflexivity|reflexivity].
+  destruct (f_gas fr <? g_cost g); [reflexivity|].
+  match goal with |- context[exec rec e (g_world g) ?f1 ?x (g_temp g)] => set (fr1 := f1); set (xx := x) end.
+  destruct (exec rec e (g_world g) fr1 xx (g_temp g)) as [w2 fr2 res| er | |] eqn:Hex; try reflexivity.
+  apply exec_keeps in Hex; [|assumption]. change (f_ro fr1) with (f_ro fr) in Hex.
+  match goal with |- context[if ?b then set_rdata fr2 res else fr2] => set (fr3 := if b then set_rdata fr2 res else fr2);
+    assert (H3 : f_ro fr3 = f_ro fr2) by (subst fr3; destruct b; reflexivity) end.
+  repeat match goal with |- context[if ?b then _ else _] => destruct b end; cbn [mkout o_ro set_pc set_pc_stack f_ro]; congruence.
+Qed.
+
+Lemma interp_of_keeps : forall lp, rec_keeps lp -> rec_keeps (interp_of lp).
+Proof. intros lp H w fr. unfold interp_of. destruct (f_code fr); [reflexivity | apply H]. Qed.
+
+Lemma loop_keeps : forall fuel e, rec_keeps (loop fuel e).
+Proof.
+  induction fuel as [|f IH]; intros e w fr; cbn [loop]; [reflexivity|].
+  pose proof (step_keeps (interp_of (loop f e)) e w fr (interp_of_keeps _ (IH e))) as Hs.
+  destruct (step _ e w fr) as [w' fr' | o]; [|exact Hs]. rewrite IH. exact Hs.
+Qed.
+
+Lemma interp_keeps : forall fuel e, rec_keeps (interp fuel e).
+Proof. intros. unfold interp. apply interp_of_keeps, loop_keeps. Qed.
+
+(* for every code and every call kind: interpreter.readOnly after the call = interpreter.readOnly before it *)
+Theorem flag_discipline : forall fuel e w rd tr depth ro caller addr input code gas value self pc pv,
+  o_ro (do_call (interp fuel e) e w rd tr depth ro caller addr input gas value) = ro /\
+  o_ro (do_callcode (interp fuel e) e w rd tr depth ro caller addr input gas value) = ro /\
+  o_ro (do_delegatecall (interp fuel e) e w rd tr depth ro self pc pv addr input gas) = ro /\
+  o_ro (do_staticcall (interp fuel e) e w rd tr depth ro caller addr input gas) = ro /\
+  o_ro (do_create (interp fuel e) e w rd tr depth ro caller code gas value) = ro.
+Proof.
+  intros. pose proof (interp_keeps fuel e) as Hk.
+  repeat split; [apply do_call_keeps | apply do_callcode_keeps | apply do_delegatecall_keeps | apply do_staticcall_keeps | apply do_create_keeps]; exact Hk.
+Qed.
+
 (* ------------------------------------------------------------------ the call machinery in a read-only context *)
 
 Definition rec_ro (rec : interp_t) : Prop := forall w fr, f_ro fr = true -> same_obs w (o_world (rec w fr)).
 
-Lemma run_precompile_world : forall e w a i g rd tr, o_world (run_precompile e w a i g rd tr) = w.
+Lemma run_precompile_world : forall e w a i g rd tr ro, o_world (run_precompile e w a i g rd tr ro) = w.
 Proof.
   intros. unfold run_precompile. destruct (a =? 5).
   - destruct (modexp_gas i); try reflexivity. destruct (g <? _); try reflexivity. destruct (modexp_run i); reflexivity.
@@ -178,20 +324,22 @@ Proof.
   intros. unfold do_delegatecall. destruct (depth >? CallCreateDepth); [apply same_obs_refl|].
   apply finish_call_obs; [apply same_obs_refl|]. apply run_contract_obs; [assumption | reflexivity].
 Qed.
-(* evm.StaticCall: whatever the caller's mode was *)
-Lemma do_staticcall_obs : forall rec e w rd tr depth caller addr input gas,
-  rec_ro rec -> same_obs w (o_world (do_staticcall rec e w rd tr depth caller addr input gas)).
+(* evm.StaticCall: whatever the flag was when it was entered *)
+Lemma do_staticcall_obs : forall rec e w rd tr depth ro caller addr input gas,
+  rec_ro rec -> same_obs w (o_world (do_staticcall rec e w rd tr depth ro caller addr input gas)).
 Proof.
   intros. unfold do_staticcall. destruct (depth >? CallCreateDepth); [apply same_obs_refl|].
+  assert (Hf : forall o, o_world (if ro then o else set_out_ro o false) = o_world o) by (intro o; destruct ro; reflexivity).
+  rewrite Hf.
   apply finish_call_obs; [apply same_obs_refl|]. apply run_contract_obs; [assumption | reflexivity].
 Qed.
 
 Lemma call_return_obs : forall w0 w fr rest ro rs o w2 fr2 res,
-  same_obs w0 (o_world o) -> call_return w fr rest ro rs o = X_ok w2 fr2 res -> same_obs w0 w2 /\ f_ro fr2 = f_ro fr.
+  same_obs w0 (o_world o) -> call_return w fr rest ro rs o = X_ok w2 fr2 res -> same_obs w0 w2.
 Proof.
   intros w0 w fr rest ro rs o w2 fr2 res Ho H. unfold call_return in H.
   destruct (o_res o); try discriminate;
-    try (destruct (mem_set _ _ _ _); try discriminate); injection H as <- <- _; split; auto.
+    try (destruct (mem_set _ _ _ _); try discriminate); injection H as <- _ _; exact Ho.
 Qed.
 
 Ltac inv_simple H :=
@@ -201,7 +349,7 @@ Ltac inv_simple H :=
   | (if ?t then _ else _) = _ => destruct t eqn:?; try discriminate
   | lift_mem _ _ _ _ = _ => unfold lift_mem in H
   end;
-  injection H as <- <- _; split; [apply same_obs_refl | assumption].
+  injection H as <- _ _; apply same_obs_refl.
 
 Lemma BitLen_zero : forall v, (BitLen v >? 0) = false -> v = 0.
 Proof.
@@ -212,7 +360,7 @@ Qed.
 Lemma exec_obs : forall rec e w fr1 x temp w2 fr2 res,
   rec_ro rec -> f_ro fr1 = true -> exec_writes x = false ->
   (x = E_call -> forall v, back (f_stack fr1) 2 = Some v -> v = 0) ->
-  exec rec e w fr1 x temp = X_ok w2 fr2 res -> same_obs w w2 /\ f_ro fr2 = true.
+  exec rec e w fr1 x temp = X_ok w2 fr2 res -> same_obs w w2.
 Proof.
   intros rec e w fr1 x temp w2 fr2 res Hrec Hro Hw Hcall H.
   destruct x; try discriminate Hw; unfold exec in H; try solve [inv_simple H].
@@ -221,33 +369,35 @@ Proof.
     assert (value0 = 0) by (apply (Hcall eq_refl); reflexivity). subst value0.
     destruct (mem_get _ _ _); try discriminate.
     change (U256 0) with 0 in H. cbn [Z.sgn Z.eqb negb] in H. rewrite Hro in H.
-    apply call_return_obs with (w0 := w) in H; [|apply do_call_obs, Hrec]. destruct H as [H1 H2]. split; [exact H1 | congruence].
+    apply call_return_obs with (w0 := w) in H; [exact H | apply do_call_obs, Hrec].
   - (* callcode *)
     destruct (f_stack fr1) as [|g0 [|addr [|value0 [|inOff [|inSize [|retOff [|retSize r]]]]]]] eqn:Hst; try discriminate.
     destruct (mem_get _ _ _); try discriminate. rewrite Hro in H.
-    apply call_return_obs with (w0 := w) in H; [|apply do_callcode_obs, Hrec]. destruct H as [H1 H2]. split; [exact H1 | congruence].
+    apply call_return_obs with (w0 := w) in H; [exact H | apply do_callcode_obs, Hrec].
   - (* delegatecall *)
     destruct (f_stack fr1) as [|g0 [|addr [|inOff [|inSize [|retOff [|retSize r]]]]]] eqn:Hst; try discriminate.
     destruct (mem_get _ _ _); try discriminate. rewrite Hro in H.
-    apply call_return_obs with (w0 := w) in H; [|apply do_delegatecall_obs, Hrec]. destruct H as [H1 H2]. split; [exact H1 | congruence].
+    apply call_return_obs with (w0 := w) in H; [exact H | apply do_delegatecall_obs, Hrec].
   - (* staticcall *)
     destruct (f_stack fr1) as [|g0 [|addr [|inOff [|inSize [|retOff [|retSize r]]]]]] eqn:Hst; try discriminate.
     destruct (mem_get _ _ _); try discriminate.
-    apply call_return_obs with (w0 := w) in H; [|apply do_staticcall_obs, Hrec]. destruct H as [H1 H2]. split; [exact H1 | congruence].
+    apply call_return_obs with (w0 := w) in H; [exact H | apply do_staticcall_obs, Hrec].
   - discriminate H.
 Qed.
 
 (* ------------------------------------------------------------------ one iteration, the loop, the theorem *)
 
-Lemma step_obs : forall rec e w fr, wf_env e -> e_byzantium e = true -> f_ro fr = true -> rec_ro rec ->
+Lemma step_obs : forall rec e w fr, wf_env e -> e_byzantium e = true -> f_ro fr = true -> rec_ro rec -> rec_keeps rec ->
   match step rec e w fr with
   | S_next w' fr' => same_obs w w' /\ f_ro fr' = true
   | S_done o => same_obs w (o_world o)
   end.
 Proof.
-  intros rec e w fr Hwf Hbyz Hro Hrec. unfold step.
-  set (op := get_op (f_code fr) (f_pc fr)).
-  set (c := nth (Z.to_nat op) (e_tbl e) invalid_cop).
+  intros rec e w fr Hwf Hbyz Hro Hrec Hkeep.
+  pose proof (step_keeps rec e w fr Hkeep) as Hsk.
+  unfold step in *.
+  set (op := get_op (f_code fr) (f_pc fr)) in *.
+  set (c := nth (Z.to_nat op) (e_tbl e) invalid_cop) in *.
   destruct (wf_tbl e Hwf) as [s Hs].
   assert (Hok : cop_ok c = true) by (subst c; rewrite Hs; apply nth_cop_ok).
   destruct (negb (c_valid c)) eqn:Hv; [apply same_obs_refl|].
@@ -263,7 +413,7 @@ Proof.
   destruct (gas_cost e w fr (c_gas c) memorySize) as [g|?|] eqn:Hgc; [|apply same_obs_refl|apply same_obs_refl].
   apply gas_cost_obs in Hgc.
   destruct (f_gas fr <? g_cost g); [exact Hgc|].
-  match goal with |- context[exec rec e (g_world g) ?f1 (c_exec c) (g_temp g)] => set (fr1 := f1) end.
+  match goal with |- context[exec rec e (g_world g) ?f1 (c_exec c) (g_temp g)] => set (fr1 := f1) in * end.
   assert (Hro1 : f_ro fr1 = true) by exact Hro.
   assert (Hcallz : c_exec c = E_call -> forall v, back (f_stack fr1) 2 = Some v -> v = 0).
   { intros Hx v Hbk. change (f_stack fr1) with (f_stack fr) in Hbk.
@@ -272,12 +422,10 @@ Proof.
     apply BitLen_zero, Hcallv. }
   destruct (exec rec e (g_world g) fr1 (c_exec c) (g_temp g)) as [w2 fr2 res| er | |] eqn:Hex;
     try (cbn [mkout o_world]; exact Hgc).
-  apply exec_obs in Hex; auto. destruct Hex as [Hw2 Hro2].
+  apply exec_obs in Hex; auto.
   assert (H02 : same_obs w w2) by (eapply same_obs_trans; eassumption).
-  set (fr3 := if c_returns c then set_rdata fr2 res else fr2).
-  assert (Hro3 : f_ro fr3 = true) by (subst fr3; destruct (c_returns c); cbn; assumption).
   destruct (c_reverts c); [exact H02|]. destruct (c_halts c); [exact H02|].
-  destruct (c_jumps c); split; auto.
+  destruct (c_jumps c); (split; [exact H02 | rewrite Hsk; exact Hro]).
 Qed.
 
 Lemma interp_of_ro : forall lp, rec_ro lp -> rec_ro (interp_of lp).
@@ -286,16 +434,16 @@ Proof. intros lp H w fr Hro. unfold interp_of. destruct (f_code fr); [apply same
 Lemma loop_ro : forall fuel e, wf_env e -> e_byzantium e = true -> rec_ro (loop fuel e).
 Proof.
   induction fuel as [|f IH]; intros e Hwf Hb w fr Hro; cbn [loop]; [apply same_obs_refl|].
-  pose proof (step_obs (interp_of (loop f e)) e w fr Hwf Hb Hro (interp_of_ro _ (IH e Hwf Hb))) as Hs.
+  pose proof (step_obs (interp_of (loop f e)) e w fr Hwf Hb Hro (interp_of_ro _ (IH e Hwf Hb)) (interp_of_keeps _ (loop_keeps f e))) as Hs.
   destruct (step _ e w fr) as [w' fr' | o]; [|exact Hs].
   destruct Hs as [H1 H2]. eapply same_obs_trans; [exact H1 | apply IH; assumption].
 Qed.
 
-(* the theorem: a STATICCALL frame (evm.StaticCall at any depth, from any mode) and, more generally, any
-   frame that runs with readOnly set, under Byzantium rules, for every code, input, gas and fuel *)
-Theorem static_is_readonly : forall fuel e w rd tr depth caller addr input gas,
+(* the theorem: a STATICCALL frame (evm.StaticCall at any depth, whatever the flag was) and, more generally,
+   any frame that runs with readOnly set, under Byzantium rules, for every code, input, gas and fuel *)
+Theorem static_is_readonly : forall fuel e w rd tr depth ro caller addr input gas,
   wf_env e -> e_byzantium e = true ->
-  same_obs w (o_world (do_staticcall (interp fuel e) e w rd tr depth caller addr input gas)).
+  same_obs w (o_world (do_staticcall (interp fuel e) e w rd tr depth ro caller addr input gas)).
 Proof.
   intros. apply do_staticcall_obs. unfold interp. apply interp_of_ro, loop_ro; assumption.
 Qed.
